@@ -78,5 +78,14 @@ func TestGocvReplayScanner(t *testing.T) {
 			}
 		}
 	}
+	// an '@' followed by something that only resembles an allowed top level (case folding, look-alike letters) stays text
+	ctxTop := types.NewXObject(map[string]types.XValue{"results": types.NewXObject(map[string]types.XValue{"x": types.NewXText("v")}), "fields": types.NewXText("f"), "contact": types.NewXText("c")})
+	for _, body := range []string{"congreſs@reſults.example", "hi @reſults", "@fieldſ.age", "@Reſults.x", "@contaCt́", "@ﬁelds"} {
+		got, hung := gocvC12Template(ev, env, ctxTop, body)
+		if hung || got != body {
+			fmt.Printf("REPLAY: reproduced the plain text %q (no allowed top-level name after the '@') comes out as %q\n", body, got)
+			return
+		}
+	}
 	fmt.Println("REPLAY: not-reproduced")
 }
